@@ -67,7 +67,10 @@ func runC15(tier string) int {
 		return 2
 	}
 	partial := servermc.RunPartialHost(col, n2)
+	recreated := servermc.RunRecreated(col, n2)
 	n2.Stop()
+	fmt.Printf("[C15] namespace created again with another partition count: keys routed=%d\n", recreated)
+	col.Set("recreated_namespace_keys", recreated)
 	fmt.Printf("[C15] node hosting 2 of 3 partitions: commands=%d\n", partial)
 	col.Set("partial_host_commands", partial)
 	col.Set("evaluations", hs.Comparisons+ms.Commands)
